@@ -50,7 +50,7 @@ impl Property for C11 {
     fn components_stubbed(&self) -> Vec<&'static str> { vec!["ObjectStore -> SimStore, WalStore -> SimWalStore (no faults in this check)", "server_persistent main(): its recovery wiring (integration.recover, WAL replay of all entries, apply_recovered_state) is restated in the harness"] }
     fn assumptions(&self) -> Vec<&'static str> { vec!["ground truth is the fold of all persisted updates with the implementation's own merge (C07 decides the merge laws); keys keep one data type per run so the open C07 type-mismatch finding is not re-reported here"] }
     fn required_probes(&self) -> Vec<&'static str> { vec!["wal_entry_below_segment_max", "interleaved_segment_ranges", "checkpoint_installed", "node_recovery_checked"] }
-    fn runs(&self, tier: Tier) -> u64 { match tier { Tier::Quick => 1500, Tier::Thorough => 60_000 } }
+    fn runs(&self, tier: Tier) -> u64 { match tier { Tier::Quick => 80000, Tier::Thorough => 3000000 } }
 
     fn run(&self, src: &mut Src, ctx: &RunCtx) -> RunReport {
         let mut rep = RunReport::default();
